@@ -1311,9 +1311,13 @@ class Interp(BuiltinsMixin, StmtMixin, DictMixin):
         recv_cls = selfv.cls if isinstance(selfv, VRef) else cname
         hook = uni.method_hooks.get(key)
         if hook is None and recv_cls and not static_dispatch:
+            # hooks of the receiver's classes down to the class that
+            # defines the resolved method (not of its base classes)
             for c in uni.repo.mro(recv_cls):
                 if f"{c}.{fn.name}" in uni.method_hooks:
                     hook = uni.method_hooks[f"{c}.{fn.name}"]
+                    break
+                if c == cname:
                     break
         if hook is not None:
             # assumed model of a repo method written as an engine hook
